@@ -41,7 +41,10 @@ CLAIMED = {
             "slot of the compact array the specification cell the layout assigns to it, no access out of range, and "
             "run for its value returns the DTW value of the specification - corner read or end-of-series scans, sqrt "
             "pass included (C04_c_wps_kernel_returns_the_dtw_value), the Euclidean twin likewise "
-            "(C04_c_wps_euclidean_kernel_as_written; CWpsCanon/Kernel/Tie/Value/Spec/Final.v + *Eu.v); dtw.warping_paths is compared with the as-written model and with the extracted "
+            "(C04_c_wps_euclidean_kernel_as_written; CWpsCanon/Kernel/Tie/Value/Spec/Final.v + *Eu.v); "
+            "C04_c_fill_then_expand_as_written: dtw_expand_wps_slice regenerated whole (Gen_cexpw.v) copies that array "
+            "into the block of the full matrix for every slice - cell (i-rb, j-cb) is the specification cell (i, j), "
+            "border cells the compact array does not keep excepted (F23), every access in range (CExpW.v); dtw.warping_paths is compared with the as-written model and with the extracted "
             "regenerated fill on every cell, the C full matrix, "
             "compact+expand and slice expansion cell-wise with the specification model applying the property's "
             "two freedoms",
@@ -122,7 +125,8 @@ CLAIMED = {
             "(Gen_cdist.v, one bounds conjunct per array access) every read and write of the buffer and of the two "
             "series is in range, for all inputs and any content of the fresh buffer; "
             "C08_c_wps_kernel_accesses_in_bounds: the same for dtw_warping_paths_ndim regenerated whole (Gen_cwpsk.v), "
-            "run without a bound on any buffer of (l1+1)*width cells; all exported routines "
+            "run without a bound on any buffer of (l1+1)*width cells; C08_c_expand_accesses_in_bounds: and for "
+            "dtw_expand_wps_slice regenerated whole (Gen_cexpw.v), every slice, any content of the block; all exported routines "
             "additionally run under AddressSanitizer+UBSan with exact-size caller buffers",
             "partial: dtw_wps_loc, negativize/positivize, dtw_wps_max, DBA and glue are sanitizer correspondence only "
             "(the traceback loops are proved under C05)",
